@@ -51,8 +51,10 @@ class L4Run:
         self.errors = []
 
     def _payload(self, k):
-        sizes = [0, 1, 5, 70000, 3]
-        return (b"op%03d:" % k) + bytes([k % 251]) * sizes[k % len(sizes)]
+        # write sizes: empty but for the tag, tiny, and - on the real L2 connection - around the Noise packet limit (a record
+        # of 65520..65535 encoded bytes does not fit one packet) and beyond
+        sizes = {1: 1, 2: 65515 if self.real else 5, 4: 70000, 6: 0, 9: 65498 if self.real else 3}
+        return (b"op%03d:" % k) + bytes([k % 251]) * sizes.get(k, 3)
 
     def do(self, la):
         w = self.w
@@ -240,7 +242,10 @@ class SubRun:
 
     # the model's subprotocol names stand for classes of real names: ordinary, non-ASCII, very long, with odd characters
     SPELLINGS = [{"a": "a", "u": "u"}, {"a": "\u00fc-proto \u2603", "u": "\u00fc-proto"}, {"a": "n" * 300, "u": "n" * 299},
-                 {"a": "a/b\\c:d e", "u": "A"}]
+                 {"a": "a/b\\c:d e", "u": "A"},
+                 # not in NFC form as given (decomposed accent, ANGSTROM SIGN): names are compared as the application wrote them;
+                 # "u" is the NFC form of "a" - another name
+                 {"a": "cafe\u0301 \u212b", "u": "caf\u00e9 \u00c5"}]
 
     def spell(self, n):
         return self.names.get(n, n)
